@@ -29,6 +29,9 @@ def snapshot (r : Ring.Ring) : String :=
 def St.obj? (s : St) (o : Nat) : Option RHost := s.objs.find? (fun h => h.obj == o)
 def showOpt : Option RHost → String | some h => toString h.obj | none => "nil"
 
+def objsOr (pfx : String) (l : List RHost) : String :=
+  if l.isEmpty then "ok" else pfx ++ join ((sortKeys (l.map (fun h => (h.obj, ())))).map (fun e => toString e.1))
+
 /-- ops
   reset
   host <obj> <id> <addr> <caddr>       define a HostInfo object
@@ -36,7 +39,13 @@ def showOpt : Option RHost → String | some h => toString h.obj | none => "nil"
   addu <obj>                           addOrUpdate → "<stored obj>" + snapshot
   rm <id>                              removeHost → "<found>" + snapshot
   get <id> | byip <addr> | all         getHost / getHostByIP / allHosts
-  refresh <filtered objs|-> <objs|->   the diff loop of refreshRing on the reported objects → result + effects + snapshot -/
+  refresh <filtered objs|-> <objs|->   the diff loop of refreshRing on the reported objects → result + effects + snapshot
+  consistent | chk                     `Ring.notFound`: hosts of the ring not found by id and by address → "ok" | "notfound:<objs>"
+                                       (`consistent` is emitted only after histories satisfying `C16.HGuarded`, where the answer is PROVED "ok")
+  nostale <n>                          `Ring.staleAddrs n`: addresses 0..n with a stale by-address entry → "ok" | "stale:<addrs>"
+                                       (PROVED "ok" after every history: `C16.C16_stale_nil`)
+  covered | chkcov                     `Ring.uncovered` → "ok" | "uncovered:<objs>"
+                                       (`covered` only after `C16.RemGuarded` histories of ring operations, where the answer is PROVED "ok") -/
 def step (s : St) (ws : List String) : St × String :=
   match ws with
   | ["reset"] => (init, "ok")
@@ -64,6 +73,12 @@ def step (s : St) (ws : List String) : St × String :=
       ++ " filled=" ++ join (eff.filled.map (fun h => toString h.obj))
       ++ " removed=" ++ join ((sortKeys (eff.removed.map (fun h => (h.obj, ())))).map (fun e => toString e.1))
       ++ " " ++ snapshot r')
+  | ["nostale", n] => let l := s.r.staleAddrs (nat n)
+    (s, if l.isEmpty then "ok" else "stale:" ++ join (l.map toString))
+  | ["consistent"] => (s, objsOr "notfound:" s.r.notFound)
+  | ["chk"] => (s, objsOr "notfound:" s.r.notFound)
+  | ["covered"] => (s, objsOr "uncovered:" s.r.uncovered)
+  | ["chkcov"] => (s, objsOr "uncovered:" s.r.uncovered)
   | ws => let (e, a) := Driver.C16Ev.step s.ev ws; ({ s with ev := e }, a)
 
 end Driver.C16
